@@ -317,7 +317,7 @@ class TypedNode(Node):
                     f"`before=node` ({before._parent}) "
                     f"must be a child of target node ({self})"
                 )
-            idx = children.index(before)  # raises ValueError
+            idx = _index_of(children, before)  # raises ValueError
             children.insert(idx, node)
         else:
             children.append(node)
